@@ -13,8 +13,8 @@ pub const PROP: Prop = Prop {
 };
 
 /// spellings usable on the command line; ABS is replaced by the absolute path of w/r
-const ARGV_ROOTS: [&str; 13] = [
-    "r", "./r", "r/", "r//", "r/.", "d/../r", "ABS", "missing", "f", "lr", "..//w/r", "lx", "lr/",
+const ARGV_ROOTS: [&str; 15] = [
+    "r", "./r", "r/", "r//", "r/.", "d/../r", "ABS", "missing", "f", "lr", "..//w/r", "lx", "lr/", "(old)", "!keep",
 ];
 /// additional names only -files0-from can carry
 const FILES0_ONLY: [&str; 3] = ["", "-dash", "new\nline"];
@@ -27,7 +27,7 @@ fn spec(t: Tier) -> Spec {
     Spec {
         id: "C18",
         level: "exploration",
-        rule: format!("every list of <= {} starting points over {} spellings (directory, ./, trailing /, //, /., ../, absolute, missing, file, link to directory with and without trailing /, dangling link; lists of <= 2 also under -H and -L) (plus, through -files0-from only: the empty name, a name starting with '-', a name containing a newline) is walked by find_main; the -print0 output must be the concatenation, in order, of the per-root reference walks with every path beginning with the root exactly as spelled; each argv list is also given as -files0-from FILE (with and without final NUL) and must give byte-identical output; missing roots must be diagnosed with non-zero status without affecting the others; the no-root case must equal '.'; binary slice: -files0-from - on stdin; non-trivial = list with >= 2 roots or a non-canonical spelling", bounds(t), ARGV_ROOTS.len()),
+        rule: format!("every list of <= {} starting points over {} spellings (directory, ./, trailing /, //, /., ../, absolute, missing, file, link to directory with and without trailing /, dangling link, names beginning with ( and !; lists of <= 2 also under -H and -L) (plus, through -files0-from only: the empty name, a name starting with '-', a name containing a newline) is walked by find_main; the -print0 output must be the concatenation, in order, of the per-root reference walks with every path beginning with the root exactly as spelled; each argv list is also given as -files0-from FILE (with and without final NUL) and must give byte-identical output; missing roots must be diagnosed with non-zero status without affecting the others; the no-root case must equal '.'; binary slice: -files0-from - on stdin; non-trivial = list with >= 2 roots or a non-canonical spelling", bounds(t), ARGV_ROOTS.len()),
         bound: json!({"max_roots": bounds(t), "argv_spellings": ARGV_ROOTS, "files0_only": FILES0_ONLY}),
         assumptions: vec!["exit status after an empty -files0-from name is not judged (statement: 'diagnosed and skipped')".into()],
         shards: 0,
@@ -46,6 +46,10 @@ fn c18_fs() -> Fs {
     fs.add(w, "f", K::File);
     fs.add(w, "lr", K::Link("r".into()));
     fs.add(w, "lx", K::Link("nowhere".into()));
+    // names that merely begin with an operator character are ordinary starting points
+    let po = fs.add(w, "(old)", K::Dir);
+    fs.add(po, "z", K::File);
+    fs.add(w, "!keep", K::File);
     let dash = fs.add(w, "-dash", K::Dir);
     fs.add(dash, "x", K::File);
     let nl = fs.add(w, "new\nline", K::Dir);
